@@ -700,7 +700,7 @@ pub fn all_steps(p: &Program) -> Vec<Step> {
 /// token boundary of one module.
 pub fn trivia_variants(texts: &[(String, String)]) -> Vec<(String, Vec<(String, String)>)> {
     let mut out = Vec::new();
-    let trivia = [" ", "\n", "/* c */ ", "// c\n", "\t", "/* é😉 */"];
+    let trivia = [" ", "\n", "/* c */ ", "// c\n", "\t", "/* é😉 */", "/* r/w: http://x/y */ "];
     for (mi, (_, text)) in texts.iter().enumerate() {
         // token boundaries = spaces outside strings, inline and line annotations
         let b = text.as_bytes();
